@@ -387,7 +387,31 @@ func init() {
 		ID:          "C03",
 		Amplify:     amplifyAPI,
 		Designs: []core.Design{
-			{Name: "optimize", Module: "Optimize", Cfg: "Optimize.cfg", Workers: 8, XmxMB: 6000, Timeout: 10 * time.Minute},
+			{Name: "optimize", Module: "Optimize", Cfg: "Optimize.cfg", Workers: 8, XmxMB: 6000, Timeout: 10 * time.Minute,
+				// every (model set over 3 variables, weights 0..2) pair: the CNF with exactly those models, optimised
+				// through Optimal (with and without a result channel) and Minimize; zero weights stay in the cost function
+				ToCases: func(env *core.Env, emitted []core.Case) []core.Case {
+					var res []core.Case
+					for i, e := range emitted {
+						nv := int(e["n"].(float64))
+						w := toInts(e["w"])
+						lits := make([]int, nv)
+						for v := range lits {
+							lits[v] = v + 1
+						}
+						ev := []gen.M{gen.OpChan("optimal", i%2 == 0)}
+						if i%3 == 0 {
+							ev = []gen.M{gen.Op("minimize")}
+						}
+						res = append(res, gen.APICase("slicenb", nv, true, gen.ClauseCtors(clauseList(e["clauses"])), true,
+							gen.M{"lits": lits, "w": w}, gen.Cfg(false, 0, 0, false, false, true), ev))
+					}
+					if env.Quick() && len(res) > 2500 {
+						env.Rand.Shuffle(len(res), func(i, j int) { res[i], res[j] = res[j], res[i] })
+						res = res[:2500]
+					}
+					return res
+				}},
 			{Name: "optimize-negative-weights", Module: "Optimize", Cfg: "Optimize_neg.cfg", Workers: 2, XmxMB: 2000, Timeout: 5 * time.Minute, ExpectViolation: "Optimal"},
 			{Name: "pbprop-zero-weight", Module: "PBProp", Cfg: "PBProp_zero.cfg", Workers: 2, XmxMB: 2000, Timeout: 5 * time.Minute, ExpectViolation: "Sound"},
 		},
